@@ -91,3 +91,29 @@ Print Assumptions C04_accepted_packages_once_distinct_callee_first.
 (* ... and a package whose functions are not in that order is not accepted *)
 Example C04_use_before_definition_rejected : trc_prog [ex_use; ex_gcd; ex_seven] = None.
 Proof. exact rejects_use_before_definition. Qed.
+
+(* The two models composed: goose's emission order (Tr/Decls.v, any package) is
+   an order the call theorem of C01 applies to.  For every package of the
+   MiniGoC fragment in SOURCE order - distinct function names, every call
+   naming a function of the package, every function translatable on its own,
+   no cycle of calls other than a function calling itself - the order the
+   depth-first visit computes is accepted by trc_prog; what goose emits for it
+   therefore preserves meaning (C01_calls_meaning_preserved). *)
+From GV Require Import Tr.MiniGoCOrder.
+
+Theorem C04_emission_order_is_accepted_by_the_call_theorem : forall P rk order,
+  NoDup (map cf_name P) ->
+  (forall fn g, In fn P -> In g (callees_b (cf_body fn)) -> exists gn, In gn P /\ cf_name gn = g) ->
+  (forall fn, In fn P -> exists T0 v, trc_func T0 fn = Some v) ->
+  acyclic (decls_of P) rk -> emit_order (decls_of P) = Some order ->
+  exists vs, trc_prog (pick P order) = Some vs.
+Proof. intros P rk order H1 H2 H3 H4 H5. exact (goose_order_is_accepted P H1 H2 H3 rk H4 order H5). Qed.
+Print Assumptions C04_emission_order_is_accepted_by_the_call_theorem.
+
+Example C04_emission_order_example :
+  emit_order (decls_of ex_src) = Some [1; 2; 0]%nat /\
+  (NoDup (map cf_name ex_src) /\
+   (forall fn g, In fn ex_src -> In g (callees_b (cf_body fn)) -> exists gn, In gn ex_src /\ cf_name gn = g) /\
+   (forall fn, In fn ex_src -> exists T0 v, trc_func T0 fn = Some v) /\
+   acyclic (decls_of ex_src) ex_rk).
+Proof. split; [exact ex_src_order|exact ex_src_hypotheses]. Qed.
